@@ -27,6 +27,9 @@ import (
 	log "github.com/sirupsen/logrus"
 )
 
+// FNV-1a 64-bit prime, used to combine the hashes of the dedup fields in order.
+const dedupHashPrime = 1099511628211
+
 type dedupProcessor struct {
 	options           *structs.DedupExpr
 	combinationHashes map[uint64]int
@@ -85,7 +88,10 @@ RecordLoop:
 				continue RecordLoop
 			}
 
-			hash ^= fieldToValues[field][i].Hash()
+			// Combine the per-field hashes so that the result depends on which
+			// field has which value: a plain XOR gives (x, y) and (y, x) the same
+			// key and makes equal values cancel ((x, x) and (y, y) are both 0).
+			hash = (hash ^ fieldToValues[field][i].Hash()) * dedupHashPrime
 
 			if fieldToValues[field][i].Dtype == sutils.SS_DT_BACKFILL ||
 				fieldToValues[field][i].Dtype == sutils.SS_INVALID {
